@@ -39,7 +39,7 @@ def run(v, tier, seed):
 
     def explore(iters, ntraces):
         rep = W("ex.ndjson"); trp = W("trace")
-        rc, out, err = vlib.run([tp, "explore", str(iters), str(seed), rep, trp, str(ntraces)], timeout=(400 if tier == "quick" else 2400))
+        rc, out, err = vlib.run([tp, "explore", str(iters), str(seed), rep, trp, str(ntraces)], timeout=(1200 if tier == "quick" else 3400))
         if rc != 0: raise vlib.MachineryError("tp explore failed rc=%s: %s %s" % (rc, out[-500:], err[-1500:]))
         return vlib.read_ndjson(rep), trp
 
